@@ -39,13 +39,28 @@ def run(ctx):
                     if c.module is hh.fi.module and c not in units:
                         units.append(c)
                         units.extend(c.nested.values())
-        dumps = [(u, n) for u in units for n in walk_no_nested(u.node) if isinstance(n, ast.Call) and isinstance(n.func, ast.Attribute) and n.func.attr == "dumps"]
+        # (the text form may live in an options object of the module: `_TextForm.dumps` -> json.dumps(structure, sort_keys=self.sort_keys))
+        for g_ in ctx.prog.functions.values():
+            if g_.module is hh.fi.module and g_ not in units:
+                units.append(g_)
+        dumps = [(u, n) for u in units for n in walk_no_nested(u.node) if isinstance(n, ast.Call) and isinstance(n.func, ast.Attribute) and n.func.attr == "dumps" and norm(n.func.value) in ("json", "_json", "simplejson")]
         if not dumps:
             raise AnalysisError("hash_hypergraph: json.dumps call not found")
         sorted_keys = True
         for u, d in dumps:
             sk = [k for k in d.keywords if k.arg == "sort_keys"]
             good = bool(sk) and isinstance(sk[0].value, ast.Constant) and sk[0].value.value is True
+            if sk and not isinstance(sk[0].value, ast.Constant):
+                # sort_keys=self.sort_keys: a field of an options object; its default (and every construction in the module) decides
+                fld = sk[0].value.attr if isinstance(sk[0].value, ast.Attribute) else None
+                defaults = [st.value for c_ in ast.walk(u.module.tree) if isinstance(c_, ast.ClassDef) for st in c_.body if isinstance(st, (ast.AnnAssign, ast.Assign)) and fld is not None and any(isinstance(t_, ast.Name) and t_.id == fld for t_ in ([st.target] if isinstance(st, ast.AnnAssign) else st.targets)) and st.value is not None]
+                overrides = [k for c_ in ast.walk(u.module.tree) if isinstance(c_, ast.Call) for k in c_.keywords if k.arg == fld and not (isinstance(k.value, ast.Constant) and k.value.value is True)]
+                if defaults and all(isinstance(x, ast.Constant) and x.value is True for x in defaults) and not overrides:
+                    res.ok("S-HASHSORT", hh.fi.short, norm(d), "sort_keys", loc(u, d))
+                else:
+                    res.unknown("S-HASHSORT", hh.fi.short, norm(d), "sort_keys", "sort_keys is not a literal True; where its value comes from was not decided", loc(u, d))
+                    sorted_keys = False
+                continue
             sorted_keys = sorted_keys and good
             res.check(good, "S-HASHSORT", hh.fi.short, norm(d), "sort_keys", "the JSON text is produced without sort_keys=True: dict insertion order leaks into the hash", loc(u, d))
         # the digest is computed from the serialised exposed attributes
